@@ -398,6 +398,16 @@ def opObjective (op : String) : P String := do
       let targets : Fin n → List (Fin n) := fun i =>
         (List.range kT).map fun j => ⟨t.getD (i.val * kT + j) 0 % n, Nat.mod_lt _ (Nat.pos_of_ne_zero h)⟩
       return "ok " ++ Wire.render (lmnnObjective L X (fun i => y.getD i.val 0) targets reg)
+  | "lmnn_code_obj" => do
+      -- the value `_loss_grad` computes (active-set count and ⟨L·G, L⟩ route) on all candidate triples
+      let y ← intArr n; let reg ← scalar Float; let kT ← nat
+      let t ← natArr (n * kT); finish
+      if h : n = 0 then throw "no samples" else
+      let targets : Fin n → List (Fin n) := fun i =>
+        (List.range kT).map fun j => ⟨t.getD (i.val * kT + j) 0 % n, Nat.mod_lt _ (Nat.pos_of_ne_zero h)⟩
+      let yf : Fin n → Int := fun i => y.getD i.val 0
+      let (v, na) := lmnnCodeObjective L X (allTargetPairs targets) (allTriples yf targets) reg
+      return s!"ok {Wire.render v} {na}"
   | _ => throw s!"unknown op {op}"
 
 /-- C13: SDML's graphical-lasso input, objective, duality gap and dual feasibility at a matrix `M` (Float twin) -/
@@ -455,7 +465,7 @@ def dispatch : P String := do
   | "pairs" | "chunks" | "knn_class" | "knn_clip" => opConstraints op
   | "form" => opForm
   | "sdml_eval" => opSdml
-  | "nca_obj" | "mlkr_obj" | "lmnn_obj" => opObjective op
+  | "nca_obj" | "mlkr_obj" | "lmnn_obj" | "lmnn_code_obj" => opObjective op
   | "lsml_eval" => opLsml
   | "scml_replay" => opScml
   | "mmc_budget" | "mmc_fd" | "mmc_gradproj" | "mmc_halfspace" | "mmc_psdproj" | "mmc_dobj" => opMmc op
